@@ -7,7 +7,9 @@
 (* source bodies.  One TLC state per left operand (the right operands are  *)
 (* enumerated inside the action); slices run as separate TLC processes.    *)
 (*   MODE  = "addsub" | "mul" | "div" | "rem" | "new" | "nov" | "frac" |   *)
-(*           "wide" | "cmp" | "expflow" | "expflow_old" | "quadrant"       *)
+(*           "wide" | "cmp" | "expflow" | "expflow_old" | "quadrant" |     *)
+(*           "atanflow" | "powfflow" | "euclid" | "exp2scale[_old]" |      *)
+(*           "exp2flow"                                                    *)
 (* A violated contract makes the invariant NoBad fail; the counterexample  *)
 (* state carries the operands and the violated clauses.                    *)
 (***************************************************************************)
@@ -19,9 +21,11 @@ CONSTANTS MODE, E0, GAP, LOW, WBITS
 EMIN_WIDE == -40
 EMAX_WIDE == 40
 EMIN_NARROW == -7
+EMIN_MID == -14
 EMAX_NARROW == 8
 E0_ZERO == 0
 E0_LOW == -6
+E0_M3 == -3
 
 Slice == atoi(IOEnv.VERIF_SLICE)
 NSlices == atoi(IOEnv.VERIF_NSLICES)
@@ -156,10 +160,15 @@ CheckQuadrant(x) == UNION { QuadrantBad(v) : v \in {x, ANeg(x)} }
 
 CheckAtanFlow(x) == UNION { AtanFlowBad(v) : v \in {x, ANeg(x)} }
 CheckPowfFlow(x) == UNION { PowfFlowBad(v) : v \in {x, ANeg(x)} }
+\* C14/C01: exp2's power-of-two scaling of every normalised pair in [1/2, 2) by every k the reduction can produce,
+\* and the whole flow (range switch, reduction, ideal kernel, scaling) on every valid x of the window
+CheckExp2Scale(r1, old) == UNION { Exp2ScaleBad(r1, k, IF old THEN Exp2ScaleOld(r1, k) ELSE Exp2Scale(r1, k)) : k \in QMIN..EMAX }
+CheckExp2Flow(x) == UNION { Exp2FlowBad(v) : v \in {x, ANeg(x)} }
 
 Items ==
   CASE MODE \in {"addsub", "mul", "div", "rem", "new", "cmp", "euclid"} -> SliceOf(SeqOfSet(ASet))
-    [] MODE \in {"expflow", "expflow_old", "quadrant", "atanflow", "powfflow"} -> SliceOf(SeqOfSet(ValidWithHi({ w \in WordsIn(E0 - GAP, E0 + GAP) : ~w.neg })))
+    [] MODE \in {"expflow", "expflow_old", "quadrant", "atanflow", "powfflow", "exp2flow"} -> SliceOf(SeqOfSet(ValidWithHi({ w \in WordsIn(E0 - GAP, E0 + GAP) : ~w.neg })))
+    [] MODE \in {"exp2scale", "exp2scale_old"} -> SliceOf(SeqOfSet(ValidWithHi({ w \in WordsIn(-P, -P + 1) : ~w.neg })))
     [] MODE = "frac" -> SliceOf(SeqOfSet(ValidWithHi({ w \in WordsIn(E0 - GAP, E0 + GAP) : ~w.neg })))
     [] MODE = "nov" -> SliceOf(SeqOfSet(AllWords))
     [] MODE = "wide" -> SliceOf([k \in 1..P2(WBITS) |-> k - 1])
@@ -181,6 +190,9 @@ CheckItem(it) ==
     [] MODE = "quadrant" -> CheckQuadrant(it)
     [] MODE = "atanflow" -> CheckAtanFlow(it)
     [] MODE = "powfflow" -> CheckPowfFlow(it)
+    [] MODE = "exp2scale" -> CheckExp2Scale(it, FALSE)
+    [] MODE = "exp2scale_old" -> CheckExp2Scale(it, TRUE)
+    [] MODE = "exp2flow" -> CheckExp2Flow(it)
 
 Init == i = 0 /\ bad = {} /\ cnt = 0
 Next == /\ i < Len(ItemSeq)
